@@ -3,10 +3,13 @@ use vmon::{Args, Mon};
 
 mod c02;
 mod c03;
+mod c04;
 mod c11;
 mod c12;
 mod c15;
 mod c16;
+mod c18;
+mod c19;
 
 fn main() {
     let args = Args::parse();
@@ -14,10 +17,13 @@ fn main() {
     let (rule, assumptions): (String, Vec<&'static str>) = match args.prop.as_str() {
         "C02" => c02::run(&args, &mut mon),
         "C03" => c03::run(&args, &mut mon),
+        "C04" => c04::run(&args, &mut mon),
         "C11" => c11::run(&args, &mut mon),
         "C12" => c12::run(&args, &mut mon),
         "C15" => c15::run(&args, &mut mon),
         "C16" => c16::run(&args, &mut mon),
+        "C18" => c18::run(&args, &mut mon),
+        "C19" => c19::run(&args, &mut mon),
         other => panic!("chk-codec does not implement {other}"),
     };
     let code = mon.finish(&args, &rule, &assumptions);
